@@ -328,8 +328,8 @@ theorem hitsound_copy_perm_partial (σs σt σs' σt' : List Nat) (src tgt src' 
   · exact ((notes_preserved σs σt src tgt h hl).trans (noteKeys_perm htgt)).trans
       (notes_preserved σs' σt' src' tgt' h' (holdsHaveLength_perm htgt hl)).symm
   · intro t f hf
-    rw [← file_balance σs σt src tgt h hsep t f hf,
-        ← file_balance σs' σt' src' tgt' h' (noSep_perm hsrc hsep) t f hf]
+    rw [← file_balance σs σt src tgt h t f hf,
+        ← file_balance σs' σt' src' tgt' h' t f hf]
     exact fileCntNotes_perm hsrc t f
   · intro t
     refine ⟨counts_le σs σt src tgt h t, ?_⟩
